@@ -11,10 +11,13 @@ pub open spec fn ord_lt<T: Ord>(a: T, b: T) -> bool { a.cmp_spec(&b) == core::cm
 pub open spec fn strictly_sorted<T: Ord>(s: Seq<T>) -> bool {
     forall|i: int, j: int| 0 <= i < j < s.len() ==> ord_lt(#[trigger] s[i], #[trigger] s[j])
 }
+pub open spec fn binary_search_post<T: Ord>(s: Seq<T>, x: T, r: Result<usize, usize>) -> bool {
+    match r {
+        Ok(i) => i < s.len() && s[i as int].cmp_spec(&x) == core::cmp::Ordering::Equal,
+        Err(i) => i <= s.len()
+            && (forall|k: int| 0 <= k < i ==> ord_lt(#[trigger] s[k], x))
+            && (forall|k: int| i <= k < s.len() ==> ord_lt(x, #[trigger] s[k])),
+    }
+}
 pub assume_specification<T: Ord>[ <[T]>::binary_search ](s: &[T], x: &T) -> (r: Result<usize, usize>)
-    ensures T::obeys_cmp_spec() && strictly_sorted(s@) ==> match r {
-        Ok(i) => i < s@.len() && s@[i as int].cmp_spec(x) == core::cmp::Ordering::Equal,
-        Err(i) => i <= s@.len()
-            && (forall|k: int| 0 <= k < i ==> ord_lt(#[trigger] s@[k], *x))
-            && (forall|k: int| i <= k < s@.len() ==> ord_lt(*x, #[trigger] s@[k])),
-    };
+    ensures T::obeys_cmp_spec() && strictly_sorted(s@) ==> binary_search_post(s@, *x, r);
